@@ -328,15 +328,19 @@ pub fn run(o: &DriveOpts, out: &mut dyn Write, tid: usize) -> Value {
             Some(Call::Data { v })
         } else {
             // a twin: clone or save+load into handle 1, then mirrored calls
-            twin_alive = true;
             twin_is_clone = rng.gen_bool(0.5);
             Some(if twin_is_clone { Call::Clone { dst: 1 } } else { Call::Reload { dst: 1 } })
         };
         let Some(call) = call else { continue };
         let mirrored = twin_alive
+            && w.gs.get(1).map(|x| x.is_some()).unwrap_or(false)
             && !matches!(call, Call::Clone { .. } | Call::Reload { .. } | Call::Slice { .. })
             && (twin_is_clone || !matches!(call, Call::NextId));
         ok = rec.call(&mut w, HCall { h: 0, call: call.clone() });
+        if matches!(call, Call::Clone { .. } | Call::Reload { .. }) {
+            twin_alive = w.gs.get(1).map(|x| x.is_some()).unwrap_or(false);
+            continue;
+        }
         if ok && mirrored {
             rec.mirror_next = true;
             ok = rec.call(&mut w, HCall { h: 1, call: call.clone() });
